@@ -88,6 +88,8 @@ def evaluate(ctx, b, lib, model_exe, n_pops, per_class):
         if reals[k].read.get("sev") != "NULL" or any(x[2] != "completeSE" for x in reals[k].insts):
             ctx.broken.append(("generator", f"a population meant to conform is not read cleanly: {reals[k].read}\n{text[-1500:]}"))
             return
+    stat = ctx.cov["correspondence"].setdefault(sch.name, {"conforming_files": len(bases), "violated_files": len(items),
+                                                             "oracle_failures": 0, "model_disagreements": 0})
     for k, (v, text, bi) in enumerate(items):
         rr, mr, base = reals[nb + k], models[nb + k], reals[bi]
         ctx.count(1, key=(sch.name, text))
@@ -95,6 +97,7 @@ def evaluate(ctx, b, lib, model_exe, n_pops, per_class):
         ctx.hist("positions", v.detail.split(":")[0])
         res = oracle(v, base, rr)
         if res:
+            stat["oracle_failures"] += 1
             kind, what = res
             key = f"{kind}:{v.key()}"
             if kind == "detect" and "@complex" in v.detail and not rr.died:
@@ -110,6 +113,7 @@ def evaluate(ctx, b, lib, model_exe, n_pops, per_class):
                 ctx.hist("model", "unmodelled: " + mr.stop)
                 continue
             ctx.hist("model", "disagrees")
+            stat["model_disagreements"] += 1
             if not any(n.startswith("correspondence") for n, _ in ctx.broken):
                 ctx.broken.append(("correspondence P21.Reader vs the reader of the schema library (violated files)",
                                    f"{d}; violation {v.key()}; file:\n{text[-3000:]}"))
